@@ -131,45 +131,71 @@ def real_damaged(codegen=False):
 
 
 def real_crash():
-    """Interrupt the real save_model at three points (KeyboardInterrupt: no 'except Exception' clean-up runs), then
-    call the real transfer_model twice more: both must return a model.  -> (runs, list of failures)"""
+    """Interrupt the real save_model (KeyboardInterrupt: no 'except Exception' clean-up runs) after k bytes for a
+    range of k, with and without a complete cache of an EARLIER version of the model in place, then call the real
+    transfer_model twice more: both must return the model a cache-free compile of the current file gives.
+    -> (runs, list of failures)"""
     import pickle as _pickle
+    import time
     import types
     from pymoca.backends.casadi import api as A
     logging.disable(logging.CRITICAL)
     bad, runs = [], 0
-    for mode in ("before-first-byte", "mid-dump", "after-dump-before-close"):
-        d = tempfile.mkdtemp(prefix="c21c_")
-        try:
-            open(os.path.join(d, "T.mo"), "w").write(T1.replace("  L l;\n", "").replace(" + l.v", ""))
-
-            def dump(obj, f, protocol=None, _mode=mode):
-                data = _pickle.dumps(obj, protocol=protocol)
-                if _mode == "mid-dump":
-                    f.write(data[: len(data) // 2])
-                    f.flush()
-                elif _mode == "after-dump-before-close":
-                    f.write(data)
-                raise KeyboardInterrupt("writer interrupted")
-            A.pickle = types.SimpleNamespace(**{k: getattr(_pickle, k) for k in dir(_pickle) if not k.startswith("__")})
-            A.pickle.dump = dump
+    base = T1.replace("  L l;\n", "").replace(" + l.v", "")
+    priors = {"no-prior-cache": None,
+              "prior-cache-same-size-edit": base.replace("y = 2 * x", "y = 5 * x"),
+              "prior-cache-variable-added": base.replace("  Real y;\n", "  Real y;\n  Real w;\n").replace("  y = 2 * x", "  w = 4 * x;\n  y = 2 * x")}
+    ref_dir = tempfile.mkdtemp(prefix="c21r_")
+    try:
+        open(os.path.join(ref_dir, "T.mo"), "w").write(base)
+        want = _signature(A.transfer_model(ref_dir, "T", {"cache": False}))
+    finally:
+        shutil.rmtree(ref_dir, ignore_errors=True)
+    for prior, old_text in priors.items():
+        for mode in ("before-first-byte", "1", "2", "3", "16", "quarter", "mid-dump", "all-but-one", "after-dump-before-close"):
+            d = tempfile.mkdtemp(prefix="c21c_")
             try:
-                try:
+                mo = os.path.join(d, "T.mo")
+                cache = os.path.join(d, "T.pymoca_cache")
+                now = time.time()
+                if old_text is not None:
+                    open(mo, "w").write(old_text)
+                    os.utime(mo, (now - 300, now - 300))
                     A.transfer_model(d, "T", {"cache": True})
-                except KeyboardInterrupt:
-                    pass
-            finally:
-                A.pickle = _pickle
-            for call in (1, 2):
-                runs += 1
+                    os.utime(cache, (now - 200, now - 200))
+                open(mo, "w").write(base)
+                os.utime(mo, (now - 100, now - 100))
+
+                def dump(obj, f, protocol=None, _mode=mode):
+                    data = _pickle.dumps(obj, protocol=protocol)
+                    k = {"before-first-byte": 0, "quarter": len(data) // 4, "mid-dump": len(data) // 2, "all-but-one": len(data) - 1,
+                         "after-dump-before-close": len(data)}.get(_mode)
+                    k = int(_mode) if k is None else k
+                    if k:
+                        f.write(data[:k])
+                        f.flush()
+                    raise KeyboardInterrupt("writer interrupted")
+                A.pickle = types.SimpleNamespace(**{k: getattr(_pickle, k) for k in dir(_pickle) if not k.startswith("__")})
+                A.pickle.dump = dump
                 try:
-                    m = A.transfer_model(d, "T", {"cache": True})
-                    if not m.states:
-                        bad.append((mode, call, "returned a model without states"))
-                except Exception as e:
-                    bad.append((mode, call, f"{type(e).__name__}: {str(e)[:80]}"))
-        finally:
-            shutil.rmtree(d, ignore_errors=True)
+                    try:
+                        A.transfer_model(d, "T", {"cache": True})
+                    except KeyboardInterrupt:
+                        pass
+                finally:
+                    A.pickle = _pickle
+                for call in (1, 2):
+                    runs += 1
+                    try:
+                        m = A.transfer_model(d, "T", {"cache": True})
+                        if not m.states:
+                            bad.append((f"{prior}:{mode}", call, "returned a model without states"))
+                        elif _signature(m) != want:
+                            bad.append((f"{prior}:{mode}", call, "returned a model that differs from a cache-free compile of the current file"))
+                    except Exception as e:
+                        bad.append((f"{prior}:{mode}", call, f"{type(e).__name__}: {str(e)[:80]}"))
+            finally:
+                shutil.rmtree(d, ignore_errors=True)
     logging.disable(logging.NOTSET)
     return runs, bad
 
@@ -332,7 +358,7 @@ def main_c21(a):
     cov["exhaustive"] = all(v.kind == "confirmed" for v in vs)
     cov["functions_encoded"] = ["casadi.api.transfer_model, load_model exception handling and fall-back to recompilation (CrossHair)"]
     cov["bounds"] = ("reader observation in {no file, empty file, strict prefix, complete file} x unpickling exception in {UnpicklingError, EOFError, AttributeError, ImportError, IndexError} "
-                     "x cache/codegen x version x mtimes (unbounded ints); real stages: a real cache file truncated at ~50 offsets; the real save_model interrupted before the first byte / mid-dump / after the dump, followed by two real transfer_model calls")
+                     "x cache/codegen x version x mtimes (unbounded ints); real stages: a real cache file truncated at ~50 offsets; the real save_model interrupted after k bytes (k in 0, 1, 2, 3, 16, quarter, half, all but one, all) with no earlier cache / a complete cache of an earlier version of the model (same-size edit, variable added) in place, followed by two real transfer_model calls whose result is compared with a cache-free compile of the current file")
     rep.assumptions += ["crash points and reader/writer interleavings are abstracted to what the reader can observe of the single cache file (absent, empty, strict prefix, complete) "
                         "and to the documented set of exceptions unpickling damaged input raises; byte offsets are exercised only in the real replay",
                         "true two-process interleavings are outside the claim"]
